@@ -26,6 +26,7 @@ from . import cfg as _cfg
 
 
 _IMM_CACHE = {}
+AUTO_INLINE = set()     # helper functions that are always analysed as part of their callers (set by ctx)
 
 
 class AnalysisIncomplete(Exception):
@@ -74,7 +75,7 @@ IDENTITY = {'dcgettext': 1, 'dgettext': 1, 'gettext': 0}
 
 
 class Event(object):
-    __slots__ = ('kind', 'ins', 'name', 'args', 'res', 'addr', 'val', 'in_loop', 'depth', 'fn', 'field', 'seq')
+    __slots__ = ('kind', 'ins', 'name', 'args', 'res', 'addr', 'val', 'in_loop', 'depth', 'fn', 'field', 'seq', 'inlined')
 
     def __init__(self, kind, ins, **kw):
         self.kind, self.ins = kind, ins
@@ -83,6 +84,7 @@ class Event(object):
         self.depth = 0
         self.fn = None
         self.seq = 0
+        self.inlined = False
         for k, v in kw.items():
             setattr(self, k, v)
 
@@ -260,6 +262,10 @@ class Path(object):
     def calls(self, name=None):
         return [e for e in self.events if e.kind == 'call' and (name is None or e.name == name)]
 
+    def real_calls(self):
+        """call events that were not replaced by their inlined body"""
+        return [e for e in self.events if e.kind == 'call' and not e.inlined]
+
     def stores(self, field=None):
         return [e for e in self.events if e.kind == 'store' and (field is None or e.field == field)]
 
@@ -275,7 +281,7 @@ class Explorer(object):
         for m in modules:
             for n, f in m.funcs.items():
                 self.funcs[n] = f
-        self.inline = set(inline)
+        self.inline = set(inline) | set(AUTO_INLINE)
         # the thorough tier unrolls every loop once more
         import os as _os
         if _os.environ.get('LCVERIF_TIER') == 'thorough' and max_visits == 2:
@@ -471,7 +477,7 @@ class Explorer(object):
 
     # -- exploration ---------------------------------------------------------
     def explore(self, fn, start=None, env=None, stop=(), known=None, call_results=None,
-                state=None, depth=0, prev=None, neq=None):
+                state=None, depth=0, prev=None, neq=None, mem=None):
         """enumerate paths of fn from block `start` (default entry).
 
         env: reg -> abstract value seeds (parameters, phi overrides)
@@ -497,6 +503,8 @@ class Explorer(object):
         if neq:
             for k_, v_ in neq.items():
                 st.neq[k_] = frozenset(v_)
+        if mem:
+            st.mem.update(mem)
         st.prev = prev
         self._loopblocks = getattr(self, '_loopblocks', {})
         lkey = (fn.name, tuple(sorted(stop)))
@@ -793,6 +801,7 @@ class Explorer(object):
         ev.res = res
         callee = self.funcs.get(name)
         if callee is not None and name in self.inline and depth < self.max_depth:
+            ev.inlined = True
             env = {}
             for p, a in zip(callee.params, args):
                 env[p.name] = a
